@@ -11,6 +11,7 @@ import (
 	"github.com/zclconf/go-cty/cty"
 
 	"verif/harness/model"
+	"verif/harness/mon"
 )
 
 // plainDecode reads b with the standard library only (numbers kept as text).
@@ -253,22 +254,10 @@ func mirror(v cty.Value, c cty.Type, j any, path string) (string, string) {
 }
 
 func matchSetMirror(ms []cty.Value, ec cty.Type, arr []any, used []bool, i int) bool {
-	if i == len(ms) {
-		return true
-	}
-	for j := range arr {
-		if used[j] {
-			continue
-		}
-		if cl, _ := mirror(ms[i], ec, arr[j], ""); cl == "" {
-			used[j] = true
-			if matchSetMirror(ms, ec, arr, used, i+1) {
-				return true
-			}
-			used[j] = false
-		}
-	}
-	return false
+	return mon.PerfectMatch(len(ms)-i, len(arr), used, func(x, j int) bool {
+		cl, _ := mirror(ms[i+x], ec, arr[j], "")
+		return cl == ""
+	})
 }
 
 func keysOf(m map[string]any) []string {
